@@ -494,6 +494,9 @@ func genC12(w *bufio.Writer, rng *hx.Rng, tier string) {
 	// ===== 2b. well-formed rows with their expected fields: the fidelity clause on the implementation =====
 	genC12Rows(w, rng, pick(4000, 50000))
 
+	// ===== 2c. one shared decoder, concurrent callers =====
+	genC12Conc(w, rng, thorough)
+
 	// ===== JSON: fidelity through insane-json, and field cutting on generated documents =====
 	nj := pick(1500, 40000)
 	simpleKeys := []string{"a", "b", "c", "msg", "level", "f_1", "k2"}
